@@ -441,6 +441,12 @@ func (c *Ctx) evalCall(x *ECall) CVal {
 		if !ok {
 			cfail("as(x, T): type name expected")
 		}
+		if it := e.p.typeByText(id.Name); it != nil {
+			if _, isIface := it.Underlying().(*types.Interface); isIface {
+				// view a pointer as the interface value holding it (to reach the interface's ghost fields)
+				return CVal{T: v.T, GT: it}
+			}
+		}
 		t := e.p.typeByText("*" + id.Name)
 		if t == nil {
 			cfail("as: unknown type %s", id.Name)
